@@ -17,11 +17,11 @@ claimed = {
  'C01': "one inductive step per vault message (all 11 msgServer methods) from an arbitrary pre-state: custody delta = recorded collateral delta, counter, published totals, no foreign position written",
  'C02': "one inductive step per vault message: supply delta = recorded principal delta, debt coins only to user/collector/burn, exact draw-down fee split",
  'C03': "gate lemma on the real ratio arithmetic (decimal grid, symbolic amounts/prices/MinCr) + per-handler plumbing of the gate's arguments, debt floor and ceiling",
- 'C06': "amm.Deposit / amm.Withdraw contracts, all operands symbolic up to 10^40, plus pool-state grid; keeper plumbing of a queued withdrawal (formula asked with this pool's reserves / supply / the request's pool coin / the configured withdraw fee rate; exactly its result paid from the pool's reserve; exactly the pool coin burnt; basic pools)",
+ 'C06': "amm.Deposit / amm.Withdraw contracts, all operands symbolic up to 10^40, plus pool-state grid; keeper plumbing of a queued withdrawal (formula asked with this pool's reserves / supply / the request's pool coin / the configured withdraw fee rate; exactly its result paid from the pool's reserve; exactly the pool coin burnt; basic pools) Ranged pools with lopsided reserves (ratio rounds to zero): the derived translation keeps the price inside the configured range (three ranges with exact square roots).",
  'C07': "FinishOrder/FinishMMOrder exact settlement from any live order, an already finished order is never settled again, owner can always cancel outside the placement batch, CancelMMOrder cancels and refunds every indexed order for unrelated symbolic app/pair ids",
- 'C04': "one message from an arbitrary pre-state: MsgDeposit / MsgWithdraw queue a request whose recorded coins are exactly what entered the global escrow (pool-coin supply unchanged), Farm / Unfarm move the module account's pool-coin balance by exactly the change of the farmer's recorded (queued + active) amount and never release more than recorded; the end-of-batch maturing step keeps the farmer's total per pool; finishing an order takes only its own escrow. Not covered: execution and refund of requests, pair escrows of orders (C07 covers order settlement), pool disabling, pool creation",
+ 'C04': "one message from an arbitrary pre-state: MsgDeposit / MsgWithdraw queue a request whose recorded coins are exactly what entered the global escrow (pool-coin supply unchanged), Farm / Unfarm move the module account's pool-coin balance by exactly the change of the farmer's recorded (queued + active) amount and never release more than recorded; the end-of-batch maturing step keeps the farmer's total per pool; finishing an order takes only its own escrow. Not covered: execution and refund of requests, pair escrows of orders (C07 covers order settlement), pool disabling, pool creation Two farmers queued in one pool: the maturing step keeps each farmer's own total.",
  'C05': "x/liquidity/amm: one individual fill (FillOrder) from any order state, a buy and a sell filled together (base conserved, quote dust in [0,1]), pro-rata distribution with remainder pass over 2 (quick) / 3 (thorough) orders of one tick on a price grid with symbolic amounts; known finding D21 (sell side can take less than distributed). Not covered: the tick loops of Match / FindMatchableAmountAtSinglePrice, pool order generation, keeper/swap.go application",
- 'C08': "books mode, one message from an arbitrary pre-state: Draw (LTV gate sees collateral, principal + interest + new loan and the pair's LTV / e-mode LTV and must agree; pool holds the coins; published borrowed moves with the principal), partial Repay, partial Withdraw (never beyond AvailableToBorrow), Deposit, Lend (new position), CloseLend; gate lemma on the real valuation arithmetic (decimal grid). Not covered: Borrow, BorrowAlternate, DepositBorrow, CloseBorrow, liquidation hand-over, the sums over all positions (only the per-step identity), interest accrual writes (C18 covers the formulas)",
+ 'C08': "books mode, one message from an arbitrary pre-state: Draw (LTV gate sees collateral, principal + interest + new loan and the pair's LTV / e-mode LTV and must agree; pool holds the coins; published borrowed moves with the principal), partial Repay, partial Withdraw (never beyond AvailableToBorrow), Deposit, Lend (new position), CloseLend; gate lemma on the real valuation arithmetic (decimal grid). Not covered: Borrow, BorrowAlternate, DepositBorrow, CloseBorrow, liquidation hand-over, the sums over all positions (only the per-step identity), interest accrual writes (C18 covers the formulas) BorrowAlternate on a fresh position: the lend half moves books and custody by the lent amount and hands the borrow half the new position.",
  'C09': "safety: one liquidation decision of the second generation for an arbitrary vault / borrow from an arbitrary pre-state (seized only on the unsafe side of the applicable ratio / threshold, ratio taken over collateral vs principal + interest + closing fee, an unsafe vault is seized or the step fails, exactly the recorded collateral moves, one locked vault); liveness: sweep window functions of both generations (valid sub-range, never wider than the batch, progress), the real second-generation vault and borrow sweeps (window visited completely, continues after a failing item, own next offset stored). Not covered: first-generation (x/liquidation) decisions, auction start",
  'C16': "map-iteration-order independence (2-safety by self-composition: insertion order vs reverse order, all orders for two entries) of amm.DistributeOrderAmountToOrders; the other map ranges named in the property and process-level replay are not covered",
  'C10': "second-generation Dutch auction: one bid from an arbitrary running auction (closed world; pays <= target, receives <= collateral, partial-bid bookkeeping, closing bid empties the auction), conversion lemma (posted price + one unit, monotone), price function falling, restart starts a fresh price line; first-generation lend Dutch auction: one bid pays the counted debt coins and receives the collateral sold plus the bonus on exactly that amount (conversions stubbed)",
